@@ -209,7 +209,8 @@ def wf_value(h, v):
     return z3.And(
         z3.Implies(is_list(v), z3.And(V.lref(v) < h.alloc, V.lref(v) >= 0, h.llen(V.lref(v)) >= 0)),
         z3.Implies(is_dict(v), z3.And(V.dref(v) < h.alloc, V.dref(v) >= 0, h.dnk(V.dref(v)) >= 0)),
-        z3.Implies(is_date(v), z3.And(V.kind(v) >= 0, V.kind(v) <= 2)))
+        z3.Implies(is_date(v), z3.And(V.kind(v) >= 0, V.kind(v) <= 2,
+                                      V.us(v) >= -62135596800 * 10 ** 6, V.us(v) < 253402300800 * 10 ** 6)))
 
 
 # ---------------------------------------------------------------------------------------------
